@@ -302,15 +302,42 @@ def worker_result():
                 violations=[], inconclusive=[])
 
 
+ITEM_TIMEOUT = int(os.environ.get('VERIF_ITEM_TIMEOUT', '1500'))     # seconds of wall clock per work item
+
+
+class ItemTimeout(BaseException):
+    pass
+
+
 def _call(args):
     fn, item = args
+    import signal
+
+    def on_alarm(*a):
+        raise ItemTimeout()
+    try:
+        old = signal.signal(signal.SIGALRM, on_alarm)
+        signal.alarm(ITEM_TIMEOUT)
+    except Exception:
+        old = None
     try:
         return fn(item)
+    except ItemTimeout:
+        r = worker_result()
+        r['inconclusive'].append('work item exceeded %d s: %r' % (ITEM_TIMEOUT, str(item)[:200]))
+        return r
     except BaseException as e:           # a worker must never take the pool down
         r = worker_result()
         r['inconclusive'].append('worker crashed on %r: %s' % (item, ''.join(traceback.format_exception_only(type(e), e)).strip()))
         r['trace'] = traceback.format_exc()
         return r
+    finally:
+        try:
+            signal.alarm(0)
+            if old is not None:
+                signal.signal(signal.SIGALRM, old)
+        except Exception:
+            pass
 
 
 def pmap(fn, items, jobs=16, chunksize=1):
